@@ -383,6 +383,10 @@ DIRECTED = [
     ('digamma', 53, [K.R(rawf(3.0))]),                     # mpf_psi0 loop (guarded)
     ('digamma', 64, [K.R(rawf(-7.25))]),
     ('digamma', 53, [K.R(rawf(-1.9))]),
+    ('ei', 53, [K.R(rawf(45.0))]), ('ei', 100, [K.R(rawf(78.5))]), ('e1', 53, [K.R(rawf(44.0))]),   # Ei asymptotic cutoff 0.693 wp
+    ('erfc', 53, [K.R(rawf(7.5))]), ('erfc', 200, [K.R(rawf(12.4))]),                                # erfc asymptotic cutoff
+    ('laguerre', 53, [K.I(1), K.I(0), K.I(1)]), ('jacobi', 53, [K.I(1), K.I(0), K.I(0), K.I(0)]),      # hypsum gives up at maxprec (exact zero)
+    ('hyp2f1', 53, [K.I(1), K.I(1), K.I(2), K.R(rawf(-1.0))]),
     ('harmonic', 24, [_c(-2.9, -1.0)]),
     ('polygamma', 100, [K.I(2), _c(-3.7, 0.25)]),                # mpc_psi loop
     ('hyp2f1', 53, [K.I(1), K.I(1), K.I(2), K.R(rawf(-1.0 + 2.0 ** -30))]),      # hypsum close to |z| = 1
@@ -540,8 +544,24 @@ LOOPS = [
     ('mpmath.libmp.gammazeta:mpf_psi0', r'^\s*t = \(t\*x2\) >> wp', lambda L: 2 * L.get('wp', 4000) + 200),
     ('mpmath.libmp.gammazeta:mpc_psi0', r'^\s*t = mpc_mul\(t, z2, wp\)', lambda L: 2 * L.get('wp', 4000) + 200),
     ('mpmath.libmp.gammazeta:mpc_psi', r'^\s*zm = mpc_mul\(zm, z2, wp\)', lambda L: 6 * L.get('wp', 4000) + 60 * L.get('m', 1000) + 400),
-    ('mpmath.ctx_mp:MPContext.hypsum', r'^\s*wp = prec \+ extraprec', lambda L: 64),
+    # hypsum: the body of the doubling loop never runs with extraprec above maxprec (checked at the loop head); 24 doublings
+    # from 50 bits is beyond any maxprec the library derives (1000 p^0.25 + 4 p)
+    ('mpmath.ctx_mp:MPContext.hypsum', r'^\s*wp = prec \+ extraprec',
+     lambda L: 24 if L.get('extraprec', 0) <= 2 * L.get('maxprec', 10**30) else 0),
+    # n!/x^n is used for x > 0.693 wp: the terms vanish in fixed point before n reaches x (for huge x much earlier)
+    ('mpmath.libmp.libhyper:ei_asymptotic', r'^\s*t = \(k\*t\*x\) >> prec', lambda L: 2 * L.get('prec', 4000) + 100),
+    # erfc asymptotic series, used for x^2 * 1.44 > wp: smallest term at k ~ x^2 ~ 0.7 wp (for huge x much earlier)
+    ('mpmath.libmp.libhyper:mpf_erfc', r'^\s*term = \(\(term \* \(2\*k - 1\)\) << wp\) // t', lambda L: 2 * L.get('wp', 4000) + 100),
+    # Halley iteration of lambertw: written as at most 100 iterations; AGM: quadratic convergence, ~log2(prec) iterations
+    ('mpmath.functions.functions:lambertw', r'^\s*ew = ctx\.exp\(w\)', lambda L: 150),
+    ('mpmath.libmp.libelefun:agm_fixed', r'^\s*anew = \(a\+b\)>>1', lambda L: 300),
+    # hypercomb raises the precision by >= 10 bits per round and gives up at maxprec
+    ('mpmath.functions.hypergeometric:hypercomb', r'^\s*ctx\.prec \+= 10\s*$', lambda L: int(L.get('maxprec', 30000)) // 10 + 10),
 ]
+
+
+EVERY_ITERATION = {'mpmath.ctx_mp:MPContext.hypsum', 'mpmath.functions.functions:lambertw', 'mpmath.libmp.libelefun:agm_fixed',
+                   'mpmath.functions.hypergeometric:hypercomb'}
 
 
 class LoopMonitor(object):
@@ -554,6 +574,7 @@ class LoopMonitor(object):
         self.maxima = {}
         self.unresolved = []
         self.active = False
+        self.errors = 0
 
     def install(self):
         import re, inspect
@@ -592,17 +613,23 @@ class LoopMonitor(object):
                 st[0] = fr
                 st[1] = 0
             st[1] = n = st[1] + 1
-            if not n & 15:
-                b = ent[1](fr.f_locals)
-                mx = maxima[ent[0]]
-                if n > mx[0]:
-                    mx[0] = n
-                if n / b > mx[1]:
-                    mx[1] = n / b
-                if n > b:
+            if not n & 15 or ent[0] in EVERY_ITERATION:
+                try:
+                    b = ent[1](fr.f_locals)
+                    mx = maxima[ent[0]]
+                    if n > mx[0]:
+                        mx[0] = n
+                    if b > 0 and n / b > mx[1]:
+                        mx[1] = n / b
+                    over = n > b
+                    wp = fr.f_locals.get('wp')
+                except Exception:            # a fault of the monitor must never look like a library exception
+                    me.errors += 1
+                    return
+                if over:
                     me.active = False
                     st[0] = None
-                    raise LoopBound('%s: %d iterations in one call, bound %d (wp=%s)' % (ent[0], n, b, fr.f_locals.get('wp')))
+                    raise LoopBound('%s: %d iterations in one call, bound %d (wp=%s)' % (ent[0], n, b, wp))
         mon.register_callback(self.TOOL, E.LINE, on_line)
         return self
 
@@ -803,7 +830,8 @@ def child_main(cases, start, wfd, tier, cpu_left, wall_end):
         except Exception:
             pass
         send({'anchors': ar.a, 'done': i >= len(cases),
-              'loops': {k: v for k, v in LOOPMON.maxima.items()}, 'loops_unresolved': LOOPMON.unresolved})
+              'loops': {k: v for k, v in LOOPMON.maxima.items()}, 'loops_unresolved': LOOPMON.unresolved,
+              'loop_monitor_errors': LOOPMON.errors})
         w.close()
 
 
@@ -942,6 +970,8 @@ def supervise(cases, rec, tier, t_start, confirm=None, final=True):
                         for k, (n, ratio) in (msg.get('loops') or {}).items():
                             rec.maximum('iterations per call of the anchored loop in ' + k, n)
                             rec.maximum('iterations per call / bound, anchored loop in ' + k, round(ratio, 3))
+                        if msg.get('loop_monitor_errors'):
+                            rec.event('loop monitor internal errors', msg['loop_monitor_errors'])
                         for k in msg.get('loops_unresolved') or []:
                             rec.anchor('unresolved loop monitor:' + k, 1)
                         if msg.get('done'):
@@ -1072,6 +1102,10 @@ def required(agg, tier):
     for a in ANCHORS[:5]:
         if not agg['anchors'].get(a) and not agg['anchors'].get('unresolved:' + a):
             miss.append('anchor never reached: ' + a)
+    if ev.get('loop monitor internal errors'):
+        miss.append('the loop monitor raised internally %d time(s)' % ev['loop monitor internal errors'])
+    if not any(k.startswith('iterations per call of the anchored loop') and v[0] > 0 for k, v in agg['maxima'].items()):
+        miss.append('the loop-iteration monitors saw no iteration at all')
     skipped = ev.get('cases not started: shard deadline', 0)
     gen = ev.get('cases generated', 0)
     if gen and skipped > 0.2 * gen:
